@@ -282,3 +282,36 @@ Definition chain_schema_table : list (N * schema) :=
 
 Definition all_wf : bool :=
   forallb (fun a => if fst a =? 100 then true else schema_wf (snd a)) chain_schema_table.
+
+(** ** Smart-contract names and parameters (common/types.rs; validity rules of concordium-contracts-common
+    [ContractName::is_valid_contract_name], [ReceiveName::is_valid_receive_name]).  The decoders read a u16 length, the
+    bytes, require UTF-8 and then: at most 100 bytes, only ASCII alphanumeric / punctuation characters (= bytes 33..126,
+    which makes the UTF-8 check redundant), "init_" prefix and no '.' (contract names), at least one '.' (receive names). *)
+Definition MAX_FUNC_NAME_SIZE : N := 100.
+Definition name_char (b : N) : bool := (33 <=? b) && (b <=? 126).
+Fixpoint has_prefix (p bs : list N) : bool :=
+  match p, bs with
+  | [], _ => true
+  | a :: p', b :: bs' => (a =? b) && has_prefix p' bs'
+  | _ :: _, [] => false
+  end.
+Definition contract_name_ok (v : gval) : bool :=
+  match v with
+  | VBytes bs => forallb name_char bs && has_prefix [105; 110; 105; 116; 95] bs && negb (existsb (N.eqb 46) bs)
+  | _ => false
+  end.
+Definition receive_name_ok (v : gval) : bool :=
+  match v with VBytes bs => forallb name_char bs && existsb (N.eqb 46) bs | _ => false end.
+Definition s_contract_name := SRefine (PFun contract_name_ok) (SBytes BE 2 MAX_FUNC_NAME_SIZE).
+Definition s_receive_name := SRefine (PFun receive_name_ok) (SBytes BE 2 MAX_FUNC_NAME_SIZE).
+Definition s_parameter := SBytes BE 2 65535.
+(** InitContractPayload / UpdateContractPayload (transactions.rs, hand-written straight-line impls; regenerated from the
+    impl bodies by translators/gen_manual_impls.py and proved equal in Chain/ManualTie.v). *)
+Definition s_init_contract_payload := STuple [s_amount; SRaw 32; s_contract_name; s_parameter].
+Definition s_update_contract_payload := STuple [s_amount; s_contract_address; s_receive_name; s_parameter].
+(** BakerKeysPayload / AddBakerPayload with the aggregation key under the kind the derive translator uses for a G2 point
+    (same 96 bytes; [s_baker_keys_payload] names the kind K_BLS_PK): the terms the impl translator regenerates. *)
+Definition s_baker_keys_payload_g2 :=
+  STuple [SOpaque 32 K_VRF_PK; SOpaque 32 K_ED25519_PK; SOpaque 96 K_G2;
+          SOpaque 64 K_DLOG_ED; SOpaque 64 K_DLOG_ED; SOpaque 64 K_BLS_PROOF].
+Definition s_add_baker_payload_g2 := STuple [s_baker_keys_payload_g2; s_amount; SBool].
